@@ -5,7 +5,7 @@
 #   tools/seedlab.sh setup                      (re)create the lab at /repo's HEAD and build it
 #   tools/seedlab.sh test <patch.diff> <ID>...  apply the patch in the lab, run the quick checks, revert
 #   tools/seedlab.sh clean
-LAB=/tmp/seedlab
+LAB=${LAB:-/tmp/seedlab}
 case "$1" in
   setup)
     git -C /repo worktree remove --force $LAB/repo 2>/dev/null; rm -rf $LAB; mkdir -p $LAB/out
